@@ -134,6 +134,16 @@ func solveAll(units []*UnitResult, dir string, timeoutSecs, workers int, crossCh
 				if j.o.MustSat {
 					// vacuity covers: a quick satisfiability probe; "unknown" is inconclusive, only unsat is a finding
 					r = runSolver(context.Background(), "z3-new", file, 3)
+					if r.status != "sat" && r.status != "unsat" {
+						// no model within the probe: ask the other solvers whether the assumptions are contradictory
+						for _, s := range []string{"cvc5", "z3"} {
+							x := runSolver(context.Background(), s, file, 8)
+							if x.status == "sat" || x.status == "unsat" {
+								r = x
+								break
+							}
+						}
+					}
 				} else if j.o.Quick {
 					r = solveFile(file, 6, fp)
 				} else {
